@@ -1,0 +1,25 @@
+//go:build verif
+
+package verifhooks
+
+import (
+	"github.com/sourcegraph/zoekt/internal/hybridre2"
+)
+
+// HybridRegexp is internal/hybridre2.Regexp.
+type HybridRegexp = hybridre2.Regexp
+
+// HybridCompile is internal/hybridre2.Compile.
+func HybridCompile(pattern string) (*HybridRegexp, error) { return hybridre2.Compile(pattern) }
+
+// HybridSetThreshold overrides the (normally read-once) ZOEKT_RE2_THRESHOLD_BYTES value for this process.
+func HybridSetThreshold(n int64) { hybridre2.VerifSetThreshold(n) }
+
+// HybridThreshold returns the threshold currently in force.
+func HybridThreshold() int64 { return hybridre2.VerifThreshold() }
+
+// HybridUseRE2 is internal/hybridre2.useRE2.
+func HybridUseRE2(inputLen int) bool { return hybridre2.VerifUseRE2(inputLen) }
+
+// HybridHasRE2 reports whether the go-re2 variant was compiled into re.
+func HybridHasRE2(re *HybridRegexp) bool { return hybridre2.VerifHasRE2(re) }
